@@ -5,7 +5,7 @@ repair S24 (`AgentSet.__setstate__` keeps the restored models of its members ali
 
 What is modelled (mesa/agent.py, mesa/model.py):
 
-* objects are identities (`Id`); the world maps identities to records:
+* objects are identities (`Nat`); the world maps identities to records:
   agents `{unique_id, w (one public attribute), model}`, models `{_agents (strong, registration order), random}`,
   generators (the scripted `random.Random`: the remaining draw script), agent sets
   `{_agents (WEAK keys, insertion order), random, _restored_models}`;
@@ -23,34 +23,34 @@ Core Lean only (linked into `drv_copyset`).
 namespace Mesa.CopySet
 open Mesa (Rng)
 
-abbrev Id := Nat
+-- identities are natural numbers
 
 structure AgentRec where
   uid : Nat
   w : Int
-  model : Id
+  model : Nat
 deriving Repr, DecidableEq
 
 structure ModelRec where
-  reg : List Id        -- Model._agents: strong references, registration order
-  gen : Id             -- Model.random
+  reg : List Nat        -- Model._agents: strong references, registration order
+  gen : Nat             -- Model.random
 deriving Repr, DecidableEq
 
 structure SetRec where
-  members : List Id    -- WeakKeyDictionary keys, insertion order (dead ones are skipped by every read)
-  gen : Id             -- AgentSet.random
-  owners : List Id     -- AgentSet._restored_models (repair S24); [] for a set the program built
+  members : List Nat    -- WeakKeyDictionary keys, insertion order (dead ones are skipped by every read)
+  gen : Nat             -- AgentSet.random
+  owners : List Nat     -- AgentSet._restored_models (repair S24); [] for a set the program built
 deriving Repr, DecidableEq
 
 structure World where
-  next : Id
-  agents : Id → Option AgentRec
-  models : Id → Option ModelRec
-  gens : Id → Option Rng
-  sets : Id → Option SetRec
-  setIds : List Id           -- the sets the program holds (all of them), creation order
-  heldM : List Id            -- the models the program holds (those it built itself)
-  ids : Id → Option Nat      -- Agent._ids: last unique_id handed out per model; a strong reference to each key
+  next : Nat
+  agents : Nat → Option AgentRec
+  models : Nat → Option ModelRec
+  gens : Nat → Option Rng
+  sets : Nat → Option SetRec
+  setIds : List Nat           -- the sets the program holds (all of them), creation order
+  heldM : List Nat            -- the models the program holds (those it built itself)
+  ids : Nat → Option Nat      -- Agent._ids: last unique_id handed out per model; a strong reference to each key
 
 def init : World :=
   { next := 0, agents := fun _ => none, models := fun _ => none, gens := fun _ => none, sets := fun _ => none,
@@ -59,15 +59,17 @@ def init : World :=
 /-! ### liveness (as after `gc.collect()`) -/
 
 /-- some set keeps model `m` in `_restored_models` -/
-def owned (w : World) (m : Id) : Bool :=
-  w.setIds.any fun t => match w.sets t with
-    | some r => r.owners.contains m
-    | none => false
+def ownersOf (w : World) (t : Nat) : List Nat :=
+  match w.sets t with
+  | some r => r.owners
+  | none => []
 
-def modelAlive (w : World) (m : Id) : Bool :=
+def owned (w : World) (m : Nat) : Bool := w.setIds.any fun t => (ownersOf w t).contains m
+
+def modelAlive (w : World) (m : Nat) : Bool :=
   (w.models m).isSome && (w.heldM.contains m || (w.ids m).isSome || owned w m)
 
-def agentAlive (w : World) (a : Id) : Bool :=
+def agentAlive (w : World) (a : Nat) : Bool :=
   match w.agents a with
   | none => false
   | some ar =>
@@ -77,38 +79,42 @@ def agentAlive (w : World) (a : Id) : Bool :=
        | none => false)
 
 /-- the members a read of the set sees -/
-def aliveMembers (w : World) (r : SetRec) : List Id := r.members.filter (agentAlive w)
+def aliveMembers (w : World) (r : SetRec) : List Nat := r.members.filter (agentAlive w)
 
 /-! ### observations -/
 
 /-- what the program can read from a set: per member its identity, `unique_id`, attribute and model; and the state of the
     set's generator -/
-def view (w : World) (s : Id) : Option (List (Id × Nat × Int × Id) × List Nat) :=
+def scriptOf (w : World) (g : Nat) : List Nat :=
+  match w.gens g with
+  | some r => r.script
+  | none => []
+
+def itemsOf (w : World) (l : List Nat) : List (Nat × Nat × Int × Nat) :=
+  l.filterMap fun a => (w.agents a).map fun ar => (a, ar.uid, ar.w, ar.model)
+
+def view (w : World) (s : Nat) : Option (List (Nat × Nat × Int × Nat) × List Nat) :=
   match w.sets s with
   | none => none
-  | some r =>
-    some ((aliveMembers w r).filterMap fun a => (w.agents a).map fun ar => (a, ar.uid, ar.w, ar.model),
-          match w.gens r.gen with
-          | some g => g.script
-          | none => [])
+  | some r => some (itemsOf w (aliveMembers w r), scriptOf w r.gen)
 
 /-- `list(model.agents)` (identities), or `none` for a model that is gone -/
-def regView (w : World) (m : Id) : Option (List Id) :=
+def regView (w : World) (m : Nat) : Option (List Nat) :=
   if modelAlive w m then (w.models m).map (·.reg) else none
 
 /-! ### operations -/
 
-def upd {β} (f : Id → Option β) (k : Id) (v : β) : Id → Option β := fun i => if i = k then some v else f i
+def upd {β} (f : Nat → Option β) (k : Nat) (v : β) : Nat → Option β := fun i => if i = k then some v else f i
 
 /-- `Model(seed=…)` with a scripted generator: generator `next`, model `next+1` -/
-def newModel (w : World) (script : List Nat) : World × Id :=
+def newModel (w : World) (script : List Nat) : World × Nat :=
   let g := w.next
   let m := w.next + 1
   ({ w with next := w.next + 2, gens := upd w.gens g ⟨script⟩, models := upd w.models m { reg := [], gen := g },
             heldM := w.heldM ++ [m] }, m)
 
 /-- `Agent(model)` then `agent.w = v`; `none`: the model is gone -/
-def create (w : World) (m : Id) (v : Int) : Option (World × Id × Nat) :=
+def create (w : World) (m : Nat) (v : Int) : Option (World × Nat × Nat) :=
   if !modelAlive w m then none else
   match w.models m with
   | none => none
@@ -119,7 +125,7 @@ def create (w : World) (m : Id) (v : Int) : Option (World × Id × Nat) :=
                    models := upd w.models m { mr with reg := mr.reg ++ [a] }, ids := upd w.ids m uid }, a, uid)
 
 /-- `agent.remove()` (the program can only name an agent that is alive) -/
-def remove (w : World) (a : Id) : Option World :=
+def remove (w : World) (a : Nat) : Option World :=
   if !agentAlive w a then none else
   match w.agents a with
   | none => none
@@ -128,19 +134,19 @@ def remove (w : World) (a : Id) : Option World :=
     | none => none
     | some mr => some { w with models := upd w.models ar.model { mr with reg := mr.reg.erase a } }
 
-def setW (w : World) (a : Id) (v : Int) : Option World :=
+def setW (w : World) (a : Nat) (v : Int) : Option World :=
   if !agentAlive w a then none else
   match w.agents a with
   | none => none
   | some ar => some { w with agents := upd w.agents a { ar with w := v } }
 
 /-- keep the first occurrence of every element (a dict built from keys) -/
-def dedup : List Id → List Id
+def dedup : List Nat → List Nat
   | [] => []
   | x :: xs => x :: (dedup xs).filter (· != x)
 
 /-- `AgentSet([a1, a2, …], random=m.random)`; all operands alive -/
-def mkSet (w : World) (m : Id) (as : List Id) : Option (World × Id) :=
+def mkSet (w : World) (m : Nat) (as : List Nat) : Option (World × Nat) :=
   if !modelAlive w m || !as.all (agentAlive w) then none else
   match w.models m with
   | none => none
@@ -149,35 +155,35 @@ def mkSet (w : World) (m : Id) (as : List Id) : Option (World × Id) :=
     some ({ w with next := w.next + 1, sets := upd w.sets s { members := dedup as, gen := mr.gen, owners := [] },
                    setIds := w.setIds ++ [s] }, s)
 
-def addTo (w : World) (s a : Id) : Option World :=
+def addTo (w : World) (s a : Nat) : Option World :=
   if !agentAlive w a then none else
   match w.sets s with
   | none => none
   | some r => some { w with sets := upd w.sets s { r with members := if r.members.contains a then r.members else r.members ++ [a] } }
 
-def discard (w : World) (s a : Id) : Option World :=
+def discard (w : World) (s a : Nat) : Option World :=
   if !agentAlive w a then none else
   match w.sets s with
   | none => none
   | some r => some { w with sets := upd w.sets s { r with members := r.members.erase a } }
 
-def wOf (w : World) (a : Id) : Int := match w.agents a with | some ar => ar.w | none => 0
+def wOf (w : World) (a : Nat) : Int := match w.agents a with | some ar => ar.w | none => 0
 
 /-- stable insertion by ascending key (`sortBy` inserts from the right, so an earlier element goes before its equals) -/
-def insertBy (key : Id → Int) (x : Id) : List Id → List Id
+def insertBy (key : Nat → Int) (x : Nat) : List Nat → List Nat
   | [] => [x]
   | y :: ys => if key x ≤ key y then x :: y :: ys else y :: insertBy key x ys
 
-def sortBy (key : Id → Int) (l : List Id) : List Id := l.foldr (insertBy key) []
+def sortBy (key : Nat → Int) (l : List Nat) : List Nat := l.foldr (insertBy key) []
 
 /-- `s.sort("w", ascending=True, inplace=True)`: the alive members in stable ascending order of `w` -/
-def sortW (w : World) (s : Id) : Option World :=
+def sortW (w : World) (s : Nat) : Option World :=
   match w.sets s with
   | none => none
   | some r => some { w with sets := upd w.sets s { r with members := sortBy (wOf w) (aliveMembers w r) } }
 
 /-- `s.shuffle(inplace=True)`: CPython's Fisher–Yates over the alive members with the set's generator -/
-def shuffleSet (w : World) (s : Id) : Option World :=
+def shuffleSet (w : World) (s : Nat) : Option World :=
   match w.sets s with
   | none => none
   | some r =>
@@ -188,48 +194,60 @@ def shuffleSet (w : World) (s : Id) : Option World :=
       some { w with sets := upd w.sets s { r with members := l }, gens := upd w.gens r.gen g' }
 
 /-- the distinct models of a list of agents, in order of first appearance -/
-def modelsOf (w : World) (as : List Id) : List Id :=
+def modelsOf (w : World) (as : List Nat) : List Nat :=
   dedup (as.filterMap fun a => (w.agents a).map (·.model))
 
-/-- `copy.deepcopy(s)` / `pickle.loads(pickle.dumps(s))`.  Every reconstructed object gets the identity `old + w.next`.
-    Returns the new world and the identity of the copy (`none`: no such set). -/
-def copySet (w : World) (s : Id) (keepOwners : Bool := true) : Option (World × Id) :=
+/-- the models reconstructed by a copy of set record `r`: those of its alive members -/
+def copiedM (w : World) (r : SetRec) : List Nat := modelsOf w (aliveMembers w r)
+
+/-- the agents reconstructed: everything registered in a reconstructed model (the alive members are among them) -/
+def copiedA (w : World) (r : SetRec) (a : Nat) : Bool :=
+  match w.agents a with
+  | some ar => (copiedM w r).contains ar.model && (match w.models ar.model with | some mr => mr.reg.contains a | none => false)
+  | none => false
+
+/-- the generators reconstructed: the set's and those of the reconstructed models -/
+def copiedG (w : World) (r : SetRec) (g : Nat) : Bool :=
+  g == r.gen || (copiedM w r).any fun m => match w.models m with | some mr => mr.gen == g | none => false
+
+/-- the world after copying set `t` (record `r`): every reconstructed object gets the identity `old + w.next` -/
+def copyWorld (w : World) (t : Nat) (r : SetRec) (keepOwners : Bool) : World :=
+  let B := w.next
+  { w with
+    next := B + B
+    agents := fun i => if B ≤ i then
+        (if copiedA w r (i - B) then (w.agents (i - B)).map fun ar => { ar with model := ar.model + B } else none)
+      else w.agents i
+    models := fun i => if B ≤ i then
+        (if (copiedM w r).contains (i - B) then
+          (w.models (i - B)).map fun mr => { reg := mr.reg.map (· + B), gen := mr.gen + B } else none)
+      else w.models i
+    gens := fun i => if B ≤ i then (if copiedG w r (i - B) then w.gens (i - B) else none) else w.gens i
+    sets := upd w.sets (t + B)
+      { members := (aliveMembers w r).map (· + B), gen := r.gen + B,
+        owners := if keepOwners then (copiedM w r).map (· + B) else [] }
+    setIds := w.setIds ++ [t + B] }
+
+/-- `copy.deepcopy(s)` / `pickle.loads(pickle.dumps(s))`.  Returns the new world and the identity of the copy (`none`: no
+    such set).  `keepOwners = false` is the code before the repair S24. -/
+def copySet (w : World) (s : Nat) (keepOwners : Bool := true) : Option (World × Nat) :=
   match w.sets s with
   | none => none
-  | some r =>
-    let B := w.next
-    let mem := aliveMembers w r
-    let ms := modelsOf w mem
-    let copiedA (a : Id) : Bool := match w.agents a with
-      | some ar => ms.contains ar.model && (match w.models ar.model with | some mr => mr.reg.contains a | none => false)
-      | none => false
-    let copiedG (g : Id) : Bool := g == r.gen || ms.any fun m => match w.models m with | some mr => mr.gen == g | none => false
-    some ({ w with
-      next := B + B
-      agents := fun i => if B ≤ i then
-          (if copiedA (i - B) then (w.agents (i - B)).map fun ar => { ar with model := ar.model + B } else none)
-        else w.agents i
-      models := fun i => if B ≤ i then
-          (if ms.contains (i - B) then (w.models (i - B)).map fun mr => { reg := mr.reg.map (· + B), gen := mr.gen + B } else none)
-        else w.models i
-      gens := fun i => if B ≤ i then (if copiedG (i - B) then w.gens (i - B) else none) else w.gens i
-      sets := upd w.sets (s + B)
-        { members := mem.map (· + B), gen := r.gen + B, owners := if keepOwners then ms.map (· + B) else [] }
-      setIds := w.setIds ++ [s + B] }, s + B)
+  | some r => some (copyWorld w s r keepOwners, s + w.next)
 
 /-! ### the step function of the protocol -/
 
 inductive Op where
   | newModel (script : List Nat)
-  | create (m : Id) (v : Int)
-  | remove (a : Id)
-  | setW (a : Id) (v : Int)
-  | mkSet (m : Id) (as : List Id)
-  | add (s a : Id)
-  | discard (s a : Id)
-  | sortW (s : Id)
-  | shuffle (s : Id)
-  | copy (s : Id)
+  | create (m : Nat) (v : Int)
+  | remove (a : Nat)
+  | setW (a : Nat) (v : Int)
+  | mkSet (m : Nat) (as : List Nat)
+  | add (s a : Nat)
+  | discard (s a : Nat)
+  | sortW (s : Nat)
+  | shuffle (s : Nat)
+  | copy (s : Nat)
 deriving Repr, DecidableEq
 
 /-- a rejected operation (an operand that is gone) leaves the world as it is -/
@@ -248,7 +266,7 @@ def step (w : World) : Op → World
 def run (w : World) (ops : List Op) : World := ops.foldl step w
 
 /-- the identities whose record an operation may change (besides the fresh ones it allocates) -/
-def writes (w : World) : Op → List Id
+def writes (w : World) : Op → List Nat
   | .newModel _ => []
   | .create m _ => [m]
   | .remove a => a :: (match w.agents a with | some ar => [ar.model] | none => [])
@@ -261,7 +279,7 @@ def writes (w : World) : Op → List Id
   | .copy _ => []
 
 /-- everything the view of set `s` depends on: the set, its generator, its members and their models -/
-def deps (w : World) (s : Id) : List Id :=
+def deps (w : World) (s : Nat) : List Nat :=
   match w.sets s with
   | none => [s]
   | some r => s :: r.gen :: (r.members ++ r.members.filterMap fun a => (w.agents a).map (·.model))
